@@ -110,60 +110,64 @@ type World struct {
 
 // Spec holds the drawn genesis parameters (plain data so that it can be logged).
 type Spec struct {
-	NEntities       int       `json:"entities"`
-	NodesPerEntity  []int     `json:"nodes_per_entity"`
-	NodeRoles       [][]int   `json:"node_roles"` // per entity, per node: 1 validator, 2 compute, 3 both
-	NUsers          int       `json:"users"`
-	EpochInterval   int64     `json:"epoch_interval"`
-	DebondingIv     uint64    `json:"debonding_interval"`
-	MaxNodeExp      uint64    `json:"max_node_expiration"`
-	MaxValidators   int       `json:"max_validators"`
-	MaxValPerEntity int       `json:"max_validators_per_entity"`
-	VotingPowerSqrt bool      `json:"voting_power_sqrt"`
-	SelfStake       []uint64  `json:"self_stake"`   // per entity, base units escrowed to itself
-	SelfShares      []uint64  `json:"self_shares"`  // per entity, shares for that stake (ratio != 1 allowed)
-	General         []uint64  `json:"general"`      // per entity general balance
-	UserBalance     []uint64  `json:"user_balance"` // per user
-	CommonPool      uint64    `json:"common_pool"`
-	LastBlockFees   uint64    `json:"last_block_fees"`
-	GovDeposits     uint64    `json:"governance_deposits"`
-	ThresholdEntity uint64    `json:"threshold_entity"`
-	ThresholdNode   uint64    `json:"threshold_node"`
-	FeeWeights      [3]uint64 `json:"fee_weights"`
-	RewardScale     uint64    `json:"reward_scale"`
-	RewardProposed  uint64    `json:"reward_factor_proposed"`
-	RewardSigned    uint64    `json:"reward_factor_signed"`
-	SlashAmount     uint64    `json:"slash_amount"`
-	SlashFreeze     uint64    `json:"slash_freeze"`
-	MinTransact     uint64    `json:"min_transact_balance"`
-	MinTransfer     uint64    `json:"min_transfer"`
-	MinDelegation   uint64    `json:"min_delegation"`
-	MaxAllowances   uint32    `json:"max_allowances"`
-	GasTxByte       uint64    `json:"gas_tx_byte"`
-	GasOp           uint64    `json:"gas_op"`
-	MaxBlockGas     uint64    `json:"max_block_gas"`
+	NEntities      int     `json:"entities"`
+	NodesPerEntity []int   `json:"nodes_per_entity"`
+	NodeRoles      [][]int `json:"node_roles"` // per entity, per node: 1 validator, 2 compute, 3 both
+	NUsers         int     `json:"users"`
+	EpochInterval  int64   `json:"epoch_interval"`
+	DebondingIv    uint64  `json:"debonding_interval"`
+	MaxNodeExp     uint64  `json:"max_node_expiration"`
+	// RtAccountBalance: general balance of the runtime's own staking account (what messages emitted by the runtime spend);
+	// RtEscrowMsgs: the staking parameter AllowEscrowMessages.
+	RtAccountBalance uint64    `json:"rt_account_balance,omitempty"`
+	RtEscrowMsgs     bool      `json:"rt_escrow_msgs,omitempty"`
+	MaxValidators    int       `json:"max_validators"`
+	MaxValPerEntity  int       `json:"max_validators_per_entity"`
+	VotingPowerSqrt  bool      `json:"voting_power_sqrt"`
+	SelfStake        []uint64  `json:"self_stake"`   // per entity, base units escrowed to itself
+	SelfShares       []uint64  `json:"self_shares"`  // per entity, shares for that stake (ratio != 1 allowed)
+	General          []uint64  `json:"general"`      // per entity general balance
+	UserBalance      []uint64  `json:"user_balance"` // per user
+	CommonPool       uint64    `json:"common_pool"`
+	LastBlockFees    uint64    `json:"last_block_fees"`
+	GovDeposits      uint64    `json:"governance_deposits"`
+	ThresholdEntity  uint64    `json:"threshold_entity"`
+	ThresholdNode    uint64    `json:"threshold_node"`
+	FeeWeights       [3]uint64 `json:"fee_weights"`
+	RewardScale      uint64    `json:"reward_scale"`
+	RewardProposed   uint64    `json:"reward_factor_proposed"`
+	RewardSigned     uint64    `json:"reward_factor_signed"`
+	SlashAmount      uint64    `json:"slash_amount"`
+	SlashFreeze      uint64    `json:"slash_freeze"`
+	MinTransact      uint64    `json:"min_transact_balance"`
+	MinTransfer      uint64    `json:"min_transfer"`
+	MinDelegation    uint64    `json:"min_delegation"`
+	MaxAllowances    uint32    `json:"max_allowances"`
+	GasTxByte        uint64    `json:"gas_tx_byte"`
+	GasOp            uint64    `json:"gas_op"`
+	MaxBlockGas      uint64    `json:"max_block_gas"`
 	// ConsMinGasPrice is the consensus-wide minimum gas price (0 = none), enforced in block execution.
 	ConsMinGasPrice uint64 `json:"cons_min_gas_price"`
-	MaxTxSize       uint64    `json:"max_tx_size"`
-	GovVotingPeriod uint64    `json:"gov_voting_period"`
-	GovStakeThresh  uint8     `json:"gov_stake_threshold"`
-	GovMinDeposit   uint64    `json:"gov_min_deposit"`
-	CommissionBound bool      `json:"commission_bounds"`
+	MaxTxSize       uint64 `json:"max_tx_size"`
+	GovVotingPeriod uint64 `json:"gov_voting_period"`
+	GovStakeThresh  uint8  `json:"gov_stake_threshold"`
+	GovMinDeposit   uint64 `json:"gov_min_deposit"`
+	CommissionBound bool   `json:"commission_bounds"`
 	// CommissionInterval: epoch alignment required of commission schedule steps (rate_change_interval; 0 = the zero value
 	// a genesis document that leaves the field out has - it passes the genesis sanity check).
 	CommissionInterval *uint64 `json:"commission_interval,omitempty"`
-	MinCommission   uint64    `json:"min_commission_rate"`
-	WithRuntime     bool      `json:"with_runtime"`
-	RtGroup         uint16    `json:"rt_group"`
-	RtBackup        uint16    `json:"rt_backup"`
+	MinCommission      uint64  `json:"min_commission_rate"`
+	WithRuntime        bool    `json:"with_runtime"`
+	RtGroup            uint16  `json:"rt_group"`
+	RtBackup           uint16  `json:"rt_backup"`
 	// scheduling constraints of the runtime: per-entity node cap (0 = none), minimum pool size above the group size,
 	// validator-set membership of the node's entity
 	RtMaxNodes     uint16 `json:"rt_max_nodes"`
 	RtMinPoolExtra uint16 `json:"rt_min_pool_extra"`
 	RtValidatorSet bool   `json:"rt_validator_set"`
 	// RtValidatorSetRole: which role the validator-set constraint applies to (0 = both, 1 = workers only, 2 = backup workers only).
-	RtValidatorSetRole int `json:"rt_validator_set_role"`
-	RtOwnStake     bool   `json:"rt_own_stake"`
+	RtValidatorSetRole int  `json:"rt_validator_set_role"`
+	RtOwnStake         bool `json:"rt_own_stake"`
 	// VRF: the VRF beacon backend (nodes submit proofs, committee elections need a high-quality alpha: at least
 	// VRFThreshold proofs in the previous epoch); false = the insecure backend.
 	VRF          bool   `json:"vrf"`
@@ -176,7 +180,7 @@ type Spec struct {
 	NodeRtVer     [][]int `json:"node_rt_versions"`
 	// RtSlash: the runtime's slash amount for equivocation (0 = the runtime does not slash); RtMaxInMsgs: size of the
 	// runtime's incoming message queue (0 = disabled).
-	RtSlash     uint64 `json:"rt_slash"`
+	RtSlash uint64 `json:"rt_slash"`
 	// Liveness evaluation of the runtime's workers (RtMinLivePct = 0: off): minimum share of live rounds, rounds needed for
 	// an evaluation, failures tolerated before the node is frozen (0 = never) and slashed, allowed share of missed proposals.
 	RtMinLivePct   uint8  `json:"rt_min_live_pct"`
@@ -185,7 +189,7 @@ type Spec struct {
 	RtMaxMissedPct uint8  `json:"rt_max_missed_pct"`
 	RtLiveSlash    uint64 `json:"rt_live_slash"`
 	RtLiveFreeze   uint64 `json:"rt_live_freeze"`
-	RtMaxInMsgs uint32 `json:"rt_max_in_msgs"`
+	RtMaxInMsgs    uint32 `json:"rt_max_in_msgs"`
 	// RtOwner: index of the entity that owns (governs) the runtime; 0 = the anchor entity.
 	RtOwner        int    `json:"rt_owner"`
 	RtStragglers   uint16 `json:"rt_stragglers"`
@@ -396,6 +400,7 @@ func BuildGenesis(spec *Spec) (*World, error) {
 		FeeSplitWeightNextPropose: q(spec.FeeWeights[2]),
 		RewardFactorEpochSigned:   q(spec.RewardSigned),
 		RewardFactorBlockProposed: q(spec.RewardProposed),
+		AllowEscrowMessages:       spec.RtEscrowMsgs,
 	}
 	st := staking.Genesis{
 		Parameters:           sp,
@@ -576,6 +581,11 @@ func BuildGenesis(spec *Spec) (*World, error) {
 			st.DebondingDelegations[eaddr] = map[staking.Address][]*staking.DebondingDelegation{}
 		}
 		st.DebondingDelegations[eaddr][faddr] = append(st.DebondingDelegations[eaddr][faddr], deb)
+	}
+	if spec.WithRuntime && spec.RtAccountBalance > 0 {
+		ra := acct(staking.NewRuntimeAddress(RuntimeID))
+		ra.General.Balance = q(spec.RtAccountBalance)
+		_ = total.Add(&ra.General.Balance)
 	}
 	st.TotalSupply = *total
 	doc.Staking = st
